@@ -3,6 +3,8 @@
 D="$1"; shift
 FEAT=""; TIERX="quick"
 if [ "$1" = "--ext" ]; then FEAT="--features non-pep508-extensions"; TIERX="thorough"; shift; fi
+# --extq: the demonstration needs the feature, but the property's quick tier already runs the extension build (ext_in_quick)
+if [ "$1" = "--extq" ]; then FEAT="--features non-pep508-extensions"; shift; fi
 cd "$D" || exit 2
 export CARGO_NET_OFFLINE=true
 S=$(cargo test --workspace --offline 2>&1 | grep -E "^test result" | head -1 | cut -c14-40)
